@@ -22,8 +22,45 @@ def main():
         import subprocess
         import time
         t0 = time.time()
-        p = subprocess.run([sys.executable, '-u', os.path.abspath(__file__)] + sys.argv[1:], env=dict(os.environ, VERIF_WORKER='1'))
-        rc = p.returncode
+        # watchdog: a library call that never returns (e.g. a loop that stops consuming its input) must not hang the check for ever.
+        # The budgets are far above the run times of a loaded machine (quick checks take 10 s - 10 min, thorough ones up to ~1 h).
+        budget = float(os.environ.get('VERIF_TIMEOUT') or (5400 if a.tier == 'quick' else 6 * 3600))
+        root0 = os.path.dirname(os.path.dirname(os.path.abspath(__file__)))
+        tracef = os.path.join(root0, '.scratch', f'watchdog-{pid}-{os.getpid()}.txt')
+        os.makedirs(os.path.dirname(tracef), exist_ok=True)
+        proc = subprocess.Popen([sys.executable, '-u', os.path.abspath(__file__)] + sys.argv[1:], env=dict(os.environ, VERIF_WORKER='1', VERIF_WATCHDOG_FILE=tracef))
+        try:
+            rc = proc.wait(timeout=budget)
+        except subprocess.TimeoutExpired:
+            try:
+                proc.send_signal(signal.SIGUSR1)          # the worker dumps the Python stacks of all its threads
+                time.sleep(3)
+            except Exception:
+                pass
+            proc.kill()
+            proc.wait()
+            where = ''
+            try:
+                where = ' | '.join(ln.strip() for ln in open(tracef).read().splitlines() if ln.strip().startswith('File'))[:600]
+            except Exception:
+                pass
+            rpd = os.environ.get('VERIF_REPLAY_DIR') or os.path.join(root0, 'replays')
+            evd = os.environ.get('VERIF_EVIDENCE_DIR') or os.path.join(root0, 'evidence')
+            os.makedirs(os.path.join(rpd, pid), exist_ok=True)
+            os.makedirs(evd, exist_ok=True)
+            rp = os.path.join(rpd, pid, 'no-result-within-budget.json')
+            json.dump(dict(property=pid, key='no-result-within-budget', what=f'the check did not finish within {budget:.0f} s; stacks at the time: {where}', payload=dict(tier=a.tier, seed=seed)), open(rp, 'w'), indent=1)
+            json.dump(dict(property_id=pid, tier=a.tier, seed=seed, level='other',
+                           coverage=dict(explanation='worker process stopped by the watchdog: no coverage recorded', evaluations=1, distinct_nontrivial=0, samples=['no-result-within-budget']),
+                           assumptions=[], wall_s=round(time.time() - t0, 2), violations=1), open(os.path.join(evd, f'{pid}.json'), 'w'), indent=1)
+            print(f'DETAIL property={pid} key=no-result-within-budget :: no result within {budget:.0f} s (a library call that does not return); Python stacks: {where}')
+            print(f'VIOLATION property={pid} replay={rp}')
+            sys.exit(1)
+        finally:
+            try:
+                os.remove(tracef)
+            except OSError:
+                pass
         if rc < 0 or rc in (134, 139):
             sig = -rc if rc < 0 else rc - 128
             try:
@@ -45,6 +82,10 @@ def main():
             print(f'VIOLATION property={pid} replay={rp}')
             sys.exit(1)
         sys.exit(rc)
+    if os.environ.get('VERIF_WATCHDOG_FILE'):
+        import faulthandler
+        import signal
+        faulthandler.register(signal.SIGUSR1, file=open(os.environ['VERIF_WATCHDOG_FILE'], 'w'), all_threads=True)
     try:
         mod = importlib.import_module(pid.lower())
     except ModuleNotFoundError as e:
